@@ -154,6 +154,16 @@ fn c11_tree(ctx: &mut Ctx, tree: &Value) {
             }
             let k1 = ctx.rng.below(rests.len());
             let k2 = ctx.rng.below(rests.len());
+            // a character picked from a string is a node too (a one-character string)
+            let (p, node): (String, Value) = match node {
+                Value::String(st) if !st.is_empty() && ctx.rng.chance(1, 2) => {
+                    let cs: Vec<char> = st.chars().collect();
+                    let i = ctx.rng.below(cs.len());
+                    (format!("{}.{}", p, i), Value::String(cs[i].to_string()))
+                }
+                other => (p.clone(), other.clone()),
+            };
+            let node = &node;
             for rest in [rests[k1].clone(), rests[k2].clone()] {
                 let full = format!("{}.{}", p, rest);
                 let a = ctx.observe(&json!({"var": [full, sentinel]}), tree).out;
